@@ -4,17 +4,16 @@ from .common import *
 from .tables import is_true, is_false, pin
 
 EXPLANATION = (
-    "Static clauses: (R1) player_is_in_check(p) is 'p's king bitboard overlaps the attack map of opposite(p)' (term"
-    ' reconstructed from MIR, per colour); (R2) decision tables: checkmate = in-check AND no legal move for the '
-    'same player; game_ending maps (no move, check) to Checkmate, (no move, no check) to Stalemate, (some move) to '
-    'None; (R3) every listed move is annotated from the position it produces: apply < classification < undo < '
-    'set_effect, table mate->Checkmate, check->Check, else None, classified colour = opponent of the mover; (R4) a '
-    'draw verdict never pre-empts checkmate/stalemate: every Draw row of game_ending has established that a legal '
-    'move exists. (R5) the attack cache is keyed by colour and position (= C02.R1); (R6) the attack map has all '
-    'four piece-class contributions for the queried colour and exact pawn attacks (= C01.R5, C01.R4). (R7) the list'
-    ' whose emptiness decides mate and stalemate is the pseudo-legal list minus exactly the moves whose simulation '
-    'leaves the king attacked (imports C01.R1/R2: every candidate is simulated, none is dropped or kept on a '
-    'shortcut). Slider / leaper geometry is NOT decided here (C11).'
+    "Static clauses: (R1) player_is_in_check(p) is 'p's king bitboard overlaps the attack map of opposite(p)' (term reconstructed from "
+    'MIR, per colour); (R2) decision tables: checkmate = in-check AND no legal move for the same player; game_ending maps (no move, '
+    'check) to Checkmate, (no move, no check) to Stalemate, (some move) to None; (R3) every listed move is annotated from the position '
+    'it produces: apply < classification < undo < set_effect, table mate->Checkmate, check->Check, else None, classified colour = '
+    'opponent of the mover; (R4) a draw verdict never pre-empts checkmate/stalemate: every Draw row of game_ending has established that'
+    ' a legal move exists. (R5) the attack cache is keyed by colour and position (= C02.R1); (R6) the attack map has all four piece-'
+    'class contributions for the queried colour and exact pawn attacks (= C01.R5, C01.R4). (R7) the list whose emptiness decides mate '
+    'and stalemate is the pseudo-legal list minus exactly the moves whose simulation leaves the king attacked (imports C01.R1/R2: every'
+    ' candidate is simulated, none is dropped or kept on a shortcut). Slider / leaper geometry is NOT decided here (C11). R7 imports '
+    'all clauses of C01 (the list whose emptiness decides mate / stalemate is the legal move list).'
 )
 ASSUMPTIONS = [
     "rustc MIR construction and the chessfacts extractor are faithful",
